@@ -103,6 +103,9 @@ func (e *Engine) verifyContract(ct *Contract) (res *FnResult) {
 	for _, cl := range ct.Requires {
 		t := fc.evalClause(env, cl)
 		S.Assume(t, "requires "+cl.Label)
+		if strings.HasPrefix(cl.Label, "env-") {
+			res.Notes.Assumed["environment assumption of "+ct.Key+" ["+cl.Label+"]: "+cl.Src] = true
+		}
 	}
 	o := fc.oblige(st, "canary", "requires", "", TFalse, "the preconditions are satisfiable")
 	o.Canary = true
